@@ -145,7 +145,9 @@ func CompareValues(left r.Element, right r.Element, verb uint8) (bool, error) {
 			if len(vl.value) != len(vr.value) {
 				return false, nil
 			}
-			// cmp each item, in the key order of the left operand (see compareLogicXEQ)
+			// cmp every item (see compareLogicXEQ): a differing entry decides wherever it
+			// stands, an entry that cannot be compared matters only when no entry differs
+			var cmpErr error
 			for _, idx := range vl.keyOrder {
 				// ensure the key exists on vr
 				vrr, ok := vr.value[idx]
@@ -154,12 +156,17 @@ func CompareValues(left r.Element, right r.Element, verb uint8) (bool, error) {
 				}
 				cmpVal, err := CompareValues(vl.value[idx], vrr, CmpEq)
 				if err != nil {
-					return false, err
+					if cmpErr == nil {
+						cmpErr = err
+					}
+					continue
 				}
-				// break the loop only when cmpVal = false
 				if !cmpVal {
 					return false, nil
 				}
+			}
+			if cmpErr != nil {
+				return false, cmpErr
 			}
 			return true, nil
 		}
